@@ -1,3 +1,5 @@
+use std::cmp;
+
 use crate::{mania::ManiaGradualDifficulty, model::mode::ConvertError, Beatmap, Difficulty};
 
 use super::{ManiaPerformanceAttributes, ManiaScoreState};
@@ -95,6 +97,9 @@ impl ManiaGradualPerformance {
     /// `n=1` will process 2, and so on.
     #[allow(clippy::missing_panics_doc)]
     pub fn nth(&mut self, state: ManiaScoreState, n: usize) -> Option<ManiaPerformanceAttributes> {
+        // Process all remaining objects if `n` exceeds their amount
+        let n = cmp::min(n, self.difficulty.len().saturating_sub(1));
+
         let performance = self
             .difficulty
             .nth(n)?
